@@ -88,6 +88,8 @@ C05Total(n, z) == LET m == Model(n, z) IN
 \* C06  no value from fewer bytes than the format requires.   cs = <<build, parse of a strict prefix>>
 C06Prefix(n, b, p) ==
     Tri(NoGreedyOptLookahead(n) /\ b.res.ok /\ Len(p.data) - p.start < Len(b.res.v.b)
+        \* the encoding is canonical: the format needs all of it (a terminator that also occurs inside the data does not delimit)
+        /\ (LET mp == ParseCall(n, b.res.v.b, 0, b.kw) IN ~IsOOM(mp) /\ mp.ok /\ Tell(mp.s) = Len(b.res.v.b))
         /\ SubSeq(p.data, p.start + 1, Len(p.data)) = SubSeq(b.res.v.b, 1, Len(p.data) - p.start),
         ~p.res.ok /\ p.res.err = "StreamError")
 \* a failing stream surfaces as StreamError.   cs = <<fault-free call, same call with a fault>>
